@@ -387,6 +387,121 @@ async fn subscriber_recovers(addr: SocketAddr, certs: &Certs, bo: BackoffStrateg
     Ok(yielded)
 }
 
+/// several keep-alive streams on ONE client notice the same connection loss together: each of them must recover
+/// within its own budget (they share the client's connection, so their reconnects contend)
+async fn shared_client_subscribers_recover(addr: SocketAddr, certs: &Certs, bo: BackoffStrategy, n_subs: usize, outages: usize, id: u64) -> std::result::Result<u64, V> {
+    let inc = |e: String| V("INCONCLUSIVE".into(), e);
+    let topic = format!("/c12shr/top{}", id);
+    let cs = lib_client(&addr.to_string(), certs, Some(bo)).await.map_err(|e| inc(e.to_string()))?;
+    let (tx, mut rx) = tokio::sync::mpsc::unbounded_channel::<(usize, std::result::Result<u64, String>)>();
+    let mut tasks = vec![];
+    for i in 0..n_subs {
+        let mut sub = cs.subscriber(&topic).with_decoder(StringCodec).open().await.map_err(|e| inc(e.to_string()))?;
+        let tx = tx.clone();
+        tasks.push(tokio::spawn(async move {
+            loop {
+                let r = match sub.next().await {
+                    Some(Ok(s)) => s.parse::<u64>().map_err(|_| format!("odd item {:?}", s)),
+                    Some(Err(e)) => Err(format!("ERR:{}|{}", if is_too_many(&e) { "too-many-retries" } else { "other" }, e)),
+                    None => Err("stream ended".into()),
+                };
+                let stop = r.is_err();
+                if tx.send((i, r)).is_err() || stop {
+                    break;
+                }
+            }
+        }));
+    }
+    let cp = lib_client(&addr.to_string(), certs, None).await.map_err(|e| inc(e.to_string()))?;
+    let mut publ = cp.publisher(&topic).with_encoder(StringCodec).open().await.map_err(|e| inc(e.to_string()))?;
+    let published = Arc::new(AtomicU64::new(0));
+    let p2 = published.clone();
+    let feeder = tokio::spawn(async move {
+        let mut n = 0u64;
+        loop {
+            n += 1;
+            if publ.send(format!("{}", n)).await.is_err() {
+                break;
+            }
+            p2.store(n, Ordering::SeqCst);
+            tokio::time::sleep(Duration::from_millis(4)).await;
+        }
+    });
+    let stop_all = |tasks: &Vec<tokio::task::JoinHandle<()>>| {
+        for t in tasks {
+            t.abort();
+        }
+    };
+    let mut yielded = 0u64;
+    // establish: every subscriber yields something
+    let mut seen = vec![false; n_subs];
+    let t0 = Instant::now();
+    while !seen.iter().all(|x| *x) {
+        match tokio::time::timeout(Duration::from_secs(15), rx.recv()).await {
+            Ok(Some((i, Ok(_)))) => seen[i] = true,
+            Ok(Some((i, Err(e)))) => {
+                feeder.abort();
+                stop_all(&tasks);
+                return Err(inc(format!("subscriber {} before any cut: {}", i, e)));
+            }
+            _ => {
+                feeder.abort();
+                stop_all(&tasks);
+                return Err(inc("precondition not reached: not every subscriber received something before the first cut".into()));
+            }
+        }
+        if t0.elapsed() > Duration::from_secs(20) {
+            feeder.abort();
+            stop_all(&tasks);
+            return Err(inc("precondition not reached within 20 s".into()));
+        }
+    }
+    for o in 0..outages {
+        tokio::time::sleep(Duration::from_millis(40)).await;
+        let mark = published.load(Ordering::SeqCst);
+        cs.verif_close_connection().await;
+        // every subscriber must come back: a gap-free run of 10 items published after the cut
+        let mut runs: Vec<Vec<u64>> = vec![vec![]; n_subs];
+        let mut done = vec![false; n_subs];
+        let t0 = Instant::now();
+        while !done.iter().all(|x| *x) {
+            let left = Duration::from_secs(25).saturating_sub(t0.elapsed());
+            match tokio::time::timeout(left, rx.recv()).await {
+                Ok(Some((i, Ok(n)))) => {
+                    yielded += 1;
+                    if n > mark {
+                        if runs[i].last().map_or(true, |l| n == l + 1) {
+                            runs[i].push(n);
+                        } else {
+                            runs[i] = vec![n];
+                        }
+                        if runs[i].len() >= 10 {
+                            done[i] = true;
+                        }
+                    }
+                }
+                Ok(Some((i, Err(e)))) => {
+                    feeder.abort();
+                    stop_all(&tasks);
+                    return Err(V(
+                        if e.contains("too-many-retries") { "subscriber/gave-up-although-server-reachable/shared-client".into() } else { "subscriber/error-after-cut/shared-client".into() },
+                        format!("outage #{} (of {}), {} subscribers on one client: subscriber {} yielded {:?} although the server was reachable all the time", o + 1, outages, n_subs, i, e),
+                    ));
+                }
+                Ok(None) | Err(_) => {
+                    feeder.abort();
+                    stop_all(&tasks);
+                    let stuck: Vec<usize> = (0..n_subs).filter(|i| !done[*i]).collect();
+                    return Err(V("subscriber/hangs-after-cut/shared-client".into(), format!("outage #{}: subscribers {:?} (of {} on one client) yielded no gap-free run of 10 fresh items within 25 s after the connection was cut while a publisher kept publishing", o + 1, stuck, n_subs)));
+                }
+            }
+        }
+    }
+    feeder.abort();
+    stop_all(&tasks);
+    Ok(yielded)
+}
+
 async fn requestor_recovers(addr: SocketAddr, certs: &Certs, bo: BackoffStrategy, outages: usize, id: u64) -> std::result::Result<u64, V> {
     requestor_recovers_t(addr, certs, bo, outages, id, 1500).await
 }
@@ -1274,6 +1389,19 @@ pub fn run(rep: &mut StageReport, tier: &str, _seed: u64) {
                 Err(_) => Err(V("INCONCLUSIVE".into(), "watchdog: scenario did not finish in 400 s".into())),
             };
             out.push(("recovery/requestor-short-timeout".to_string(), cfg, r));
+        }
+        // several subscribers on one client lose their shared connection together; single-attempt budgets
+        for (k, (n_subs, attempts, step, outages)) in [(3usize, 1u32, 200u64, 2usize), (5, 1, 20, 3), (4, 2, 5, 3)].into_iter().enumerate() {
+            if !thorough && k == 2 {
+                continue;
+            }
+            let bo = BackoffStrategy::constant().with_max_attempts(attempts).with_step(Duration::from_millis(step));
+            let cfg = json!({"role": "subscriber", "streams_on_one_client": n_subs, "backoff": "constant", "max_attempts": attempts, "step_ms": step, "outages": outages});
+            let r = match tokio::time::timeout(Duration::from_secs(400), shared_client_subscribers_recover(server.addr, &certs.0, bo, n_subs, outages, k as u64)).await {
+                Ok(r) => r,
+                Err(_) => Err(V("INCONCLUSIVE".into(), "watchdog: shared-client scenario did not finish in 400 s".into())),
+            };
+            out.push(("recovery/subscribers-sharing-a-client".to_string(), cfg, r));
         }
         // publisher with batching + compression across outages
         for k in 0..(if thorough { 4u64 } else { 2 }) {
